@@ -165,7 +165,7 @@ static void run() {
   val_t entry_x[32], entry_d[32];
   for (uint32_t i = 0; i < 32; i++) { entry_x[i] = nondet_u32(); x[i] = entry_x[i]; entry_d[i] = nondet_u32(); d[i] = entry_d[i]; }
   val_t sp0 = nondet_u32() & ~val_t(15);
-  V_ASSUME(sp0 >= 0x10000 && sp0 <= 0x7FFF0000u);
+  V_ASSUME(sp0 >= 0x100000 && sp0 <= 0x7FFF0000u);   // room for the largest frame below, no wrap-around above
   x[31] = sp0; sp_entry = sp0;
   s_valid[0] = s_valid[1] = 0; ex_valid = false; viol = 0; ret_seen = false; n_inst = 0; n_store = 0;
   BaseEmitter* em = reinterpret_cast<BaseEmitter*>(emitter_mem);
